@@ -287,6 +287,11 @@ func Run(c *common.Ctx) error {
 	if err := dropNeverWritten(c, c.Rng.Fork()); err != nil {
 		return err
 	}
+	for jm := 0; jm < 3; jm++ {
+		if err := dropWaitsForWriter(c, c.Rng.Fork(), jm); err != nil {
+			return err
+		}
+	}
 	for _, ps := range [][2]int{{4096, 1024}, {512, 4096}, {1024, 1024}} {
 		if err := snapshotAcrossDrop(c, c.Rng.Fork(), ps[0], ps[1]); err != nil {
 			return err
@@ -534,5 +539,67 @@ func dropNeverWritten(c *common.Ctx, r *common.Rand) error {
 		return nil
 	}
 	emptyDrop("between two lives")
+	return nil
+}
+
+// dropWaitsForWriter: the database is removed while a connection is in the middle of a write transaction: the drop
+// waits for the write lock, the transaction commits, then the drop runs. Both are transactions: the position advances
+// by two, the log is one chain that ends with the drop.
+func dropWaitsForWriter(c *common.Ctx, r *common.Rand, jmode int) error {
+	dir, err := os.MkdirTemp(c.OutDir, "c15w-")
+	if err != nil {
+		return err
+	}
+	defer os.RemoveAll(dir)
+	n, err := lfs.Open(dir, true)
+	if err != nil {
+		return err
+	}
+	defer n.Close()
+	h := hist.NewOn(c, r.Fork(), hist.Config{PageSize: 512}, n.Store, n.Exits, "db", &lfs.Image{PageSize: 512}, 0, false)
+	if !commitN(h, 2) {
+		return fmt.Errorf("setup commits failed")
+	}
+	db := n.Store.DB("db")
+	before := db.Pos()
+	dropDone := make(chan error, 1)
+	h.Pager.BeforeCommit = func() {
+		// the writer has written its pages and is about to finalise its journal: the unlink arrives now and waits
+		go func() { dropDone <- db.Drop(context.Background()) }()
+		time.Sleep(150 * time.Millisecond)
+	}
+	ob := h.Exec(hist.Step{Op: "rtx", Writes: map[uint32]uint64{2: 4242}, NewSize: uint32(len(h.Ref.Pages)), JMode: jmode})
+	h.Pager.BeforeCommit = nil
+	var derr error
+	select {
+	case derr = <-dropDone:
+	case <-time.After(10 * time.Second):
+		derr = fmt.Errorf("the drop did not return within 10 s")
+	}
+	c.Evaluations++
+	c.Distinct(fmt.Sprintf("drop-waits-for-writer:%d", jmode))
+	rep := map[string]any{"kind": "drop-waits-for-writer", "journal_mode": jmode, "commit_error": ob.Err, "drop_error": fmt.Sprint(derr)}
+	if ob.Err != "" || ob.Panic != "" || derr != nil {
+		c.Count("drop_waits_for_writer_not_both", 1) // one of the two was refused: nothing to compare
+		return nil
+	}
+	pos := db.Pos()
+	infos, _ := lfs.ListLTX(filepath.Join(n.Dir, "dbs", "db"))
+	sort.SliceStable(infos, func(i, j int) bool { return infos[i].Min < infos[j].Min })
+	switch {
+	case len(n.Exits()) > 0:
+		c.Violate("C15:drop-waits:exit", fmt.Sprintf("the node called Exit(%v)", n.Exits()), rep)
+	case pos.TXID != before.TXID+2 || uint64(pos.PostApplyChecksum) != lfs.ChecksumFlag:
+		c.Violate("C15:drop-waits:position", fmt.Sprintf("a transaction committed while the drop was waiting for the write lock, then the drop ran: the position went from %s to %s; want transaction %d with the empty checksum", before, pos, before.TXID+2), rep)
+	case len(infos) == 0 || infos[len(infos)-1].Max != uint64(pos.TXID) || infos[len(infos)-1].Commit != 0:
+		c.Violate("C15:drop-waits:log", fmt.Sprintf("the log does not end with the drop at the position %s", pos), rep)
+	default:
+		for i := 1; i < len(infos); i++ {
+			if !infos[i].Valid || infos[i].Min != infos[i-1].Max+1 || infos[i].Pre != infos[i-1].Post {
+				c.Violate("C15:drop-waits:chain", fmt.Sprintf("the log is not one chain: %s does not continue %s", infos[i].Name, infos[i-1].Name), rep)
+				break
+			}
+		}
+	}
 	return nil
 }
